@@ -384,3 +384,10 @@ sub('vector_dense_int64.go','''      if value, err := strconv.ParseInt(fields[i]
         *v = append(*v, int64(exact))
         continue
       }''')
+# incomplete gamma dispatcher: the start value of the inverted series renamed, the final inversion written as a negated difference
+rename_in_func('special/gamma.go', r'func gamma_incomplete_imp\(', 'init_value', 'start')
+sub('special/gamma.go','''    result = gam - result
+''','''    result = -(result - gam)
+''')
+# Temme: phi written through the ratio
+sub('special/gamma.go','''  phi   := sigma - math.Log1p(sigma)''','''  phi   := sigma - math.Log(x/a)''')
